@@ -454,7 +454,7 @@ func (w *world) exec1(op string) string {
 			}
 		}
 
-		return "[" + strings.Join(out, " ") + "] | " + w.omDump("OrderedMap.ForEach")
+		return fmt.Sprintf("[%s] ret=%v | %s", strings.Join(out, " "), completed, w.omDump("OrderedMap.ForEach"))
 	case "menc":
 		b, err := w.om.Encode(w.api)
 		if err != nil {
